@@ -57,6 +57,7 @@ any attributes of have all been unpacked.
 
 import io
 import pickle
+import types
 import dill
 
 
@@ -102,6 +103,7 @@ class _NonrecursivePickler(dill.Pickler):
     def __init__(self, file, **kwargs):
         dill.Pickler.__init__(self, file, **kwargs)
         self.lazywrites = []
+        self._eager = 0
         self.realwrite = file.write
 
         # TODO: this creates a reference loop and prevents gc
@@ -126,7 +128,10 @@ class _NonrecursivePickler(dill.Pickler):
             raise NotImplementedError(  # pragma: no cover
                 "Edgegraph _NonrecursivePickler does not support save_persistent_id option!"
             )
-        self.lazywrites.append(_LazySave(obj))
+        if self._eager:
+            self.realsave(obj)
+        else:
+            self.lazywrites.append(_LazySave(obj))
 
     #: Alias to the true :py:meth:`dill.Pickler.save`.
     realsave = dill.Pickler.save
@@ -141,18 +146,39 @@ class _NonrecursivePickler(dill.Pickler):
     memoize = lazymemoize
     realmemoize = dill.Pickler.memoize
 
+    def _save_now(self, obj):
+        """
+        Really save one object; its children are queued, except below a class
+        or function.
+
+        A class or function that cannot be imported is pickled by value, and
+        dill builds it in two steps (the ``__class__`` cell of a method that
+        uses ``super()`` refers back to the class) which it tracks on a stack
+        that only works while the children are written inside the parent's
+        ``save()``.  Those are small objects, not graphs, so below them the
+        plain recursive algorithm is used.
+        """
+        if isinstance(obj, (type, types.FunctionType)):
+            self._eager += 1
+            try:
+                self.realsave(obj)
+            finally:
+                self._eager -= 1
+        else:
+            self.realsave(obj)
+
     def dump(self, obj):
         """Write a pickled representation of obj to the open file."""
         if self.proto >= 2:
             self.write(pickle.PROTO + chr(self.proto).encode("ascii"))
-        self.realsave(obj)
+        self._save_now(obj)
         while self.lazywrites:
             lws = self.lazywrites
             self.lazywrites = []
             while lws:
                 lw = lws.pop(0)
                 if isinstance(lw, _LazySave):
-                    self.realsave(lw.obj)
+                    self._save_now(lw.obj)
                     if self.lazywrites:
                         self.lazywrites.extend(lws)
                         break
